@@ -10,6 +10,11 @@ CHECKS = {
         technique="property-based testing (Hypothesis): generated schema x population x layout, round-trip oracle against an independent Part 21 parser and the generator's model",
         text="Generated EXPRESS schemas are compiled with the tree's exp2cxx; generated conforming populations are read and written by the real library; an independent Part 21 parser maps the written bytes back to the generator's model (two-sided equality, reals to 15 digits) and the second write must be byte-identical. Search, not proof: held on N generated cases.",
         note="Trusts: the schema/population generators produce only valid schemas / conforming files (validated by check-express and by the independent parser), the reference attribute order of ISO 10303-21 11.2.5.2 in lib/expmodel.py. Open finding F20 (comments inside an instance) is excluded by construction and probed on every run."),
+    "C03": dict(
+        level="fault_enumeration", ref="DESIGN.md section 4 C03",
+        technique="property-based testing (Hypothesis) with exhaustive enumeration of single faults (class x attribute occurrence x instance position) per generated conforming population; oracle: severity/exit status threshold + confinement against the generator's model",
+        text="Every applicable single fault of the statement's classes is applied in turn at every instance/part/attribute position of generated conforming populations; the real reader must end with severity <= INCOMPLETE and p21read must exit non-zero, and every other instance (not referring to the faulted one) must still serialise to its model value.",
+        note="Faults are generated only where the result is certainly outside ISO 10303-21 or the schema (table WRONG in lib/checks/c03.py). For unterminated records confinement is asserted only for earlier instances. Open finding F46 (recovery not string aware) is excluded by construction (strings without delimiters in the main campaign, probes with them). Layout noise is white space only."),
     "C09": dict(
         level="exploration", ref="DESIGN.md section 4 C09",
         technique="exhaustive enumeration of short token strings per literal kind x delimiter context + rapidcheck random long tokens and writer grid, in-process against DFA recognisers transcribed from the Part 21 BNF and strtod/128-bit integer value functions",
